@@ -10,44 +10,7 @@ verus! {
 
 //@type vls-core/src/policy/validator.rs :: CounterpartyCommitmentSecrets derive=Clone
 
-// ------------------------------------------------------------------ spec side
-pub open spec fn bit_set(idx: u64, b: u8) -> bool { idx & (1u64 << b) == (1u64 << b) }
-
-// BOLT-3 "generate_from_seed" restricted to the low `bits` bits, `done` iterations performed
-pub open spec fn flip_bit(s: Seq<u8>, bitpos: u8) -> Seq<u8> {
-    s.update((bitpos / 8) as int, s[(bitpos / 8) as int] ^ (1u8 << (bitpos & 7)))
-}
-pub open spec fn derive_steps(secret: Seq<u8>, bits: u8, idx: u64, done: nat) -> Seq<u8>
-    decreases done
-{
-    if done == 0 { secret } else {
-        let prev = derive_steps(secret, bits, idx, (done - 1) as nat);
-        let bitpos = (bits - done) as u8;
-        if bit_set(idx, bitpos) { sha256_spec(flip_bit(prev, bitpos)) } else { prev }
-    }
-}
-pub open spec fn derive_spec(secret: Seq<u8>, bits: u8, idx: u64) -> Seq<u8> {
-    derive_steps(secret, bits, idx, bits as nat)
-}
-
-// position of a secret in the store: number of trailing zero bits of its index, capped at 48
-pub open spec fn place_spec(idx: u64, r: u8) -> bool {
-    r <= 48 && (r < 48 ==> bit_set(idx, r)) && (forall|j: u8| j < r ==> !bit_set(idx, j))
-}
-
-pub open spec fn min_seen(s: Seq<([u8; 32], u64)>) -> u64
-    decreases s.len()
-{
-    if s.len() == 0 { 0x1_0000_0000_0000u64 } else {
-        let m = min_seen(s.drop_last());
-        if s.last().1 < m { s.last().1 } else { m }
-    }
-}
-
-// the new secret re-derives every stored secret below its position (BOLT-3 consistency)
-pub open spec fn consistent_below(store: Seq<([u8; 32], u64)>, secret: [u8; 32], pos: u8, upto: int) -> bool {
-    forall|i: int| 0 <= i < upto ==> derive_spec(secret@, pos, (#[trigger] store[i]).1) == store[i].0@
-}
+//@include frag/secrets_spec.rs
 
 // ------------------------------------------------------------------ code side
 impl CounterpartyCommitmentSecrets {
@@ -91,16 +54,7 @@ impl CounterpartyCommitmentSecrets {
 //@end
 
 //@fn vls-core/src/policy/validator.rs :: impl CounterpartyCommitmentSecrets :: provide_secret props=C03,C10
-    ensures
-        // accepted only if consistent with every stored secret below its position
-        r.is_ok() ==> exists|pos: u8| place_spec(idx, pos) && pos <= old(self).old_secrets@.len()
-            && consistent_below(old(self).old_secrets@, secret, pos, pos as int),            //[C03.secrets.provide-consistent]
-        // only the slot of this index may change, and only to this secret
-        r.is_ok() ==> exists|pos: u8| place_spec(idx, pos) && (
-            final(self).old_secrets@ == old(self).old_secrets@
-            || (pos < old(self).old_secrets@.len() && final(self).old_secrets@ == old(self).old_secrets@.update(pos as int, (secret, idx)))
-            || (pos == old(self).old_secrets@.len() && final(self).old_secrets@ == old(self).old_secrets@.push((secret, idx)))),   //[C03.secrets.provide-frame]
-        r.is_err() ==> final(self).old_secrets@ == old(self).old_secrets@,                   //[C10.secrets.provide-err-frame]
+//@include frag/c/secrets_provide_secret.rs
 //@loop 1
         invariant
             pos <= 48, pos <= self.old_secrets@.len(), *self == *old(self),
